@@ -9,30 +9,54 @@ READY = True
 RULE = ("grid: histories of 3-12 color/remove_from_stack_by_key/clear_stack commands (2-5 keys, priorities with ties, "
         "fades 0/125/250/500/1000/2000 ms, about half of the commands placed exactly at, one tick before or one tick "
         "after the end of an earlier fade, several commands at one instant) on a fresh RGB, single-channel, RGBW "
-        "(duck_rgb), DriverLight (software fade, 125 ms) or direct-fade (250 ms) light of a real machine on the virtual "
-        "clock; every 125 ms tick is observed (get_color before/after the commands, every set_fade the drivers receive, "
-        "every brightness command the fade channel issues, the order in which the remove_fade delays fire). "
-        "non-trivial = at least one command lands while a fade of the same light is running. "
-        "generic: same kind of history with arbitrary fade lengths (multiples of 25 ms), a batched back end "
-        "(PlatformBatchLightSystem) and RGB lights with a colour-correction profile, oracle only. "
-        "45% of the histories of both suites also change the machine variable 'brightness' (0.25..1.0) one to three "
-        "times between commands and draw their colours from three values so that earlier colours return after a change; "
-        "the at-rest oracle compares the hardware with the logical colour corrected in the harness (int(x*factor), then "
-        "the profile's lookup table recomputed from its parameters).")
+        "(duck_rgb, white_only, min_rgb), RGB-with-colour-profile, DriverLight (software fade, 125 ms) or direct-fade "
+        "(250 ms) light of a real machine on the virtual clock; every 125 ms tick is observed (get_color before/after the "
+        "commands, what every hardware channel shows, _get_color_and_fade(stack, max_fade_ms) for max_fade_ms in a subset "
+        "of 125/250/500, every set_fade the drivers receive, every brightness command the fade channel issues, the "
+        "delays that fired and their instants). non-trivial = at least one command lands while a fade of the same light "
+        "is running. "
+        "offgrid: the same on the virtual-light kinds with fade lengths off the tick grid (257..2999 ms, chosen so that "
+        "float and exact interpolation cannot differ), delays firing between ticks. "
+        "batch: the real PlatformBatchLightSystem with 2-5 recording PlatformBatchLight lights (successor structure) on a "
+        "bare virtual-time loop: 2-10 set_fade calls (instant, or fades of arbitrary ms length that started up to 5 "
+        "ticks ago), max_fade 0/125/250/500 ms, poll 125/250 ms, batch size 1/2/3/8, and in 60% of the cases a callback "
+        "that per script yields for 0/125/250 ms and issues further set_fade calls while it is awaited; the order of the "
+        "atomic blocks of the two tasks is observed and fed to the model together with the calls; compared: every "
+        "callback list and, after every tick in which something happened, the complete internal state. non-trivial = a "
+        "set_fade arrives while the callback is awaited or while that light's fade is being stepped. "
+        "generic (oracle only): arbitrary fade lengths (multiples of 25 ms) on all kinds including the batched back end "
+        "behind a real Light. "
+        "45% of the Light histories also change the machine variable 'brightness' (0.25..1.0) one to three times between "
+        "commands and draw their colours from three values so that earlier colours return after a change; the oracle "
+        "compares the hardware with the logical colour corrected in the harness (int(x*factor), then the profile's "
+        "lookup table recomputed from its parameters), at the end of every history and at every tick at which no fade "
+        "is running.")
 TRUSTED_BASE = [
     "Coq 8.16.1 kernel (coqc), vm_compute for refutation witnesses and for evaluating the model in the correspondence run",
     "axioms: none (every Print Assumptions is 'Closed under the global context')",
-    "hand-written model coq/C09/Model.v tied to the repository by correspondence: harness/props/c09.py drives real Light "
-    "devices of a booted machine (virtual platform, drivers platform) and the model with the same command history",
-    "CPython float arithmetic is exact on the 1/8 s grid with power-of-two fade lengths (domain of the grid suite); "
-    "asyncio/TimeTravelLoop ordering inside one instant: timers, then task wake-ups (validated on every run)",
-    "harness-defined recording subclasses of LightPlatformDirectFade / PlatformBatchLight (no in-tree direct-fade class exists)",
+    "hand-written models coq/C09/Model.v (Light, fade channel, VirtualLight) and coq/C09/Batch.v (batch light system) tied "
+    "to the repository by correspondence: harness/props/c09.py drives real Light devices of a booted machine (virtual "
+    "platform, drivers platform) resp. the real PlatformBatchLightSystem and the models with the same history",
+    "CPython float arithmetic: exact on the 1/8 s grid with power-of-two fade lengths; for the off-grid lengths of the "
+    "offgrid suite int((end-start)*ratio) equals the exact quotient (argument in NOTES.md, divisibility asserted at import); "
+    "batch brightnesses are compared after rounding to 1/(255*1024), cases with two floats closer than 1e-9 are not fed "
+    "to the model",
+    "asyncio/TimeTravelLoop ordering inside one instant: Light suites: timers, then task wake-ups (validated on every run "
+    "by bad_fires); batch suite: not assumed, the order of blocks is observed (clock proxy, Event subclass, callback) and "
+    "their enabledness is checked by the model",
+    "harness-defined recording subclasses of LightPlatformDirectFade / PlatformBatchLight and a harness-defined callback "
+    "coroutine (no in-tree direct-fade class exists; in-tree batch callbacks do not yield); the RGBW style of a light is "
+    "set on the light object after boot (Light._rbgw_style), not through mpf:rgbw_white_behavior",
+    "the colour-profile lookup table given to the model is recomputed in the harness from the profile parameters",
 ]
 ASSUMPTIONS = [
-    "brightness factor in {0.25, 0.5, 0.75, 1.0} (exact floats), changed only between ticks; colour-correction profiles "
-    "are covered by the oracle, not by the model",
+    "brightness factor in {0.25, 0.5, 0.75, 1.0} (exact floats), changed only between ticks",
     "priorities >= 0, keys are strings, start_time is not passed by the caller",
-    "model domain: fade lengths 125 ms * 2^k (float ratios exact); other lengths are covered by the oracle only",
+    "model domain of the Light suites: fade lengths 125 ms * 2^k, and (virtual-light kinds only) the off-grid lengths of "
+    "OFFGRID_FADES; other lengths and off-grid lengths on the fade-channel kinds are covered by the oracle only",
+    "batch: set_fade start times are not in the future (as Light issues them); max_fade_ms and poll time are multiples of "
+    "125 ms; update_hz 8 or 4",
+    "the check models the code WITH fixes/C09-batch-light-dirty-while-sending.patch",
 ]
 
 KEYS = ["", "a", "b", "c", "d", "e"]
@@ -502,6 +526,10 @@ def chan_map(kind, c):
     return [m]
 
 
+def _same(a, b):
+    return len(a) == len(b) and all(abs(x - y) <= 1e-9 for x, y in zip(a, b))
+
+
 def oracle(case, out):
     fails = []
     if out["errors"]:
@@ -514,11 +542,13 @@ def oracle(case, out):
     # specification-level view of the history.  live: key -> dict(p, c, end, t0, start, solo); fadeouts: key -> (p, end)
     live = {}
     fadeouts = {}
+    settle = 0.0       # tick after which no fade of this history so far is running any more
     for t, tk in enumerate(out["ticks"]):
         for k in [k for k, e in fadeouts.items() if e[1] <= t]:
             del fadeouts[k]            # a removal fade that has ended is gone
         ops = byt.get(t, [])
         for o in ops:
+            settle = max(settle, t + (o[3] / 125.0 if o[1] in ("color", "remove") else 0))
             if o[1] == "color":
                 _, _, c, fade, p, k = o
                 cur = live[k]["p"] if k in live else fadeouts[k][0] if k in fadeouts else 0
@@ -548,6 +578,15 @@ def oracle(case, out):
                 fails.append({"sig": "logical-not-top",
                               "what": "no fade running at tick %d: logical colour %s, highest-priority entry %s"
                                       % (t, tk["post"], want)})
+            # ... and the hardware shows it, at every such moment of the history, not only at its end (the batched back
+            # end transmits at its next poll; histories that change the brightness are judged at the end, see below)
+            # a software / direct fade channel takes its last step up to one interval (<= 250 ms) after the fade's end
+            if kind != 5 and not case.get("bright") and "hwnow" in tk and (kind in VIRTUAL_KINDS or t >= settle + 3):
+                hw_want = [x / 255.0 for x in chan_map(kind, corrected(kind, want, 4))]
+                if not _same(tk["hwnow"], hw_want):
+                    fails.append({"sig": "hw-differs-at-rest",
+                                  "what": "no fade running at tick %d: hardware shows %s, logical colour %s -> channels %s, "
+                                          "%s light" % (t, tk["hwnow"], want, hw_want, KIND_NAMES[kind])})
         # the visible entry is an opaque fade in progress: between its endpoints, no jump when it starts
         covered = top is not None and any((fp, k) > (top["p"], topk) for k, (fp, _) in fadeouts.items())
         if top is not None and top["end"] > t and not covered:
@@ -579,8 +618,7 @@ def oracle(case, out):
     want_cmd = [x / 255.0 for x in chan_map(kind, corrected(kind, last["post"], fac_cmd))]
     got = [0.0 if g is None else g for g in out["final"]]     # never commanded: still off
 
-    def same(a, b):
-        return len(a) == len(b) and all(abs(x - y) <= 1e-9 for x, y in zip(a, b))
+    same = _same
     if not same(got, want):
         if fac_cmd != fac_now and same(got, want_cmd):
             # exactly the recorded defect: the brightness changed after the last command this light was sent
@@ -781,8 +819,7 @@ def run_batch(case):
                 seen = len(trace)
             t += 1
             if t > 600:
-                errors.append("the batch system does not come to rest")
-                break
+                break               # does not come to rest: the final observation shows what is left (oracle)
         dump()
         for tk in (bs.update_task, bs.scheduler_task):
             if tk.done() and not tk.cancelled() and tk.exception():
@@ -990,22 +1027,28 @@ def describe(case):
 
 SUITES = [
     Suite("grid", gen_grid, run_history, hdr(), coq_grid, oracle, shrink, nontrivial,
-          {"quick": 1500, "thorough": 40000}, worker_init=worker_init, shard=130, describe=describe),
+          {"quick": 700, "thorough": 20000}, worker_init=worker_init, shard=177, describe=describe),
     Suite("offgrid", gen_offgrid, run_history, hdr(), coq_grid, oracle, shrink, nontrivial,
-          {"quick": 500, "thorough": 15000}, worker_init=worker_init, shard=130, describe=describe),
+          {"quick": 240, "thorough": 8000}, worker_init=worker_init, shard=61, describe=describe),
     Suite("batch", gen_batch, run_batch, BHDR, coq_batch, oracle_batch, shrink_batch, nontrivial_batch,
-          {"quick": 400, "thorough": 20000}, shard=50, describe=describe_batch),
+          {"quick": 260, "thorough": 12000}, shard=66, describe=describe_batch),
     Suite("generic", gen_generic, run_history, None, None, oracle, shrink, nontrivial,
-          {"quick": 700, "thorough": 20000}, worker_init=worker_init, describe=describe),
+          {"quick": 400, "thorough": 12000}, worker_init=worker_init, describe=describe),
 ]
 
-LEVEL_TEXT = ("Machine-checked proof (Coq) about an executable model of Light's priority stack, colour interpolation, "
-              "hardware-update suppression and the software/direct fade channel: the logical colour is the top entry's, "
-              "fades stay between their endpoints and end on the target, removal restores the colour beneath, clearing "
-              "turns the light off, and at rest the last commanded brightness equals the logical colour for every history; "
-              "the model is tied to the working tree by running both on the same generated histories on every run.")
-LEVEL_NOTE = ("Trusted: Coq kernel + vm_compute; no axioms. Model hand-written; the differential run validates it tick by "
-              "tick (logical colour, set_fade commands, brightness commands). The batched back end is covered by the direct "
-              "oracle only. Gamma/colour correction are the identity in the runs.")
-TECHNIQUE = "Coq proof over hand-written executable model + differential correspondence (vm_compute) + direct property oracle"
+LEVEL_TEXT = ("Machine-checked proof (Coq) about executable models of Light's priority stack, colour interpolation "
+              "(_get_color_and_fade for any max_fade_ms), hardware-update suppression, brightness and colour-profile "
+              "correction, the RGB/white/RGBW (three styles) channel mapping, the software/direct fade channel, VirtualLight "
+              "and the batch light system (both tasks, events, schedule, last_state, yielding callback): the logical colour "
+              "is the top entry's, fades stay between their endpoints and end on the target, removal restores the colour "
+              "beneath, clearing turns the light off; one theorem about complete runs: whenever no fade is in progress "
+              "every hardware channel shows the corrected logical colour; for the batch system, in every interleaving, no "
+              "update and no wake-up is lost and at rest every light was last sent its target. The models are tied to the "
+              "working tree by running both on the same generated histories on every run.")
+LEVEL_NOTE = ("Trusted: Coq kernel + vm_compute; no axioms. Models hand-written; the differential run validates them tick by "
+              "tick (logical colour, hardware channels, set_fade commands, brightness commands, delays) resp. block by block "
+              "with the complete internal state of the batch system. Brightness factor: proved for the factor of the light's "
+              "last command (known finding brightness-change-not-propagated), in full for a constant factor. The end-to-end "
+              "run Light -> batch back end and fade lengths in 25 ms steps are covered by the direct oracle only.")
+TECHNIQUE = "Coq proof over hand-written executable models + differential correspondence (vm_compute) + direct property oracle"
 DESIGN_REF = "DESIGN.md section 3, C09"
